@@ -30,7 +30,7 @@ CASES = {'quick': 96, 'thorough': 1440}
 MIN_NONTRIVIAL = {'quick': 40, 'thorough': 600}
 ANCHORS = ['loki/transformations/parametrise.py']
 REQUIRED_REACH = ['transform_subroutine']
-REQUIRED_COUNTERS = {'matching_runs_equal': 80, 'guard_fired': 50}
+REQUIRED_COUNTERS = {'matching_runs_equal': 40, 'guard_fired': 25}
 ASSUMPTIONS = ['gfortran 12 -O0 with run-time checks is the reference semantics',
                'generated programs are well-defined by construction (original must run clean on every input, else discarded)',
                'the guard "triggers" = the process ends with a non-zero status after emitting the message the '
